@@ -398,6 +398,8 @@ fn format_volume(dev: &SparseDev, spec: &J, vals: &mut Vals, rule: &mut DefaultR
         let bk: u16 = if resv > 6 && fsinfo != 6 { 6 } else { 0 }; // backup boot sector, when there is room for it
         bs[50..52].copy_from_slice(&bk.to_le_bytes());
         bs[64] = 0x80;
+        // (byte 65, "reserved": other systems keep a dirty / check-disk flag in its low bits while the volume is mounted)
+        bs[65] = ju(spec, "dirty", 0) as u8;
         bs[66] = 0x29;
         bs[67..71].copy_from_slice(&(ju(spec, "serial", 0x1234_5678) as u32).to_le_bytes());
         bs[71..82].copy_from_slice(&lab);
